@@ -1,4 +1,84 @@
-/- Driver of the `pd` world (stub: to be written by the owner of this world). -/
+/-
+  Driver of the `pd` world: replays an ops file through `Mx.PD.step` and prints one result
+  line per op line (byte-identical to harness/src/bin/w_pd.rs).  Import-free apart from
+  Core/Driver modules.
+-/
+import MxModel.Core.PriceDiscovery
 import MxModel.Driver.Proto
 
-def main : IO Unit := Mx.Proto.mainLoop () (fun s _ => (s, none))
+open Mx Mx.PD Mx.Proto
+
+namespace Mx.PdDriver
+
+def parseTok : String → Option Tok
+  | "L" => some .launched
+  | "A" => some .accepted
+  | _ => none
+
+def parseOp : List String → Option Op
+  | ["deposit", c, t, a] => do pure (.deposit (← c.toNat?) (← parseTok t) (← a.toNat?))
+  | ["withdraw", c, t, a] => do pure (.withdraw (← c.toNat?) (← parseTok t) (← a.toNat?))
+  | ["redeem", c, t, a] => do pure (.redeem (← c.toNat?) (← parseTok t) (← a.toNat?))
+  | ["advance", b] => do pure (.advance (← b.toNat?))
+  | ["epoch", e] => do pure (.epoch (← e.toNat?))
+  | _ => none   -- `bad …` lines: malformed payments, always rejected
+
+def showPhase : Phase → String
+  | .idle => "idle,0"
+  | .noPenalty => "nopenalty,0"
+  | .linear p => s!"linear,{p}"
+  | .fixed p => s!"fixed,{p}"
+  | .redeem => "redeem,0"
+
+def showPhaseView : Phase → String
+  | .idle => "idle 0"
+  | .noPenalty => "nopenalty 0"
+  | .linear p => s!"linear {p}"
+  | .fixed p => s!"fixed {p}"
+  | .redeem => "redeem 0"
+
+def showUsers (s : St) : String :=
+  " ".intercalate ((List.range s.n).map fun i =>
+    let u := i + 1
+    s!"u{u}={s.L.w u},{s.A.w u},{s.L.h u},{s.A.h u},{s.L.k u},{s.A.k u}")
+
+def showState (s : St) : String :=
+  let price := match s.price with
+    | some p => toString p
+    | none => "-"
+  s!"blk={s.block} ep={s.epoch} ph={showPhase s.phase} bal={s.L.bal},{s.A.bal} " ++
+  s!"sup={s.L.sup},{s.A.sup} real={s.L.real},{s.A.real} lock={s.L.lock},{s.A.lock} " ++
+  s!"red={s.L.red},{s.A.red} paid={s.L.paid},{s.A.paid} price={price} " ++ showUsers s
+
+def initOf (ws : List String) : St :=
+  let g (k : String) (d : Nat) := (kvNat ws k).getD d
+  let cfg : Cfg :=
+    { start := g "start" 10, d1 := g "d1" 5, d2 := g "d2" 5, d3 := g "d3" 5,
+      pmin := g "pmin" 0, pmax := g "pmax" 0, pfix := g "pfix" 0,
+      minPrice := g "minp" 0, prec := 10 ^ (g "dec" 18), unlock := g "unlock" 5 }
+  let funds := 10 ^ 40
+  PD.init cfg (g "users" 3) funds funds
+
+def view (s : St) : List String → Option String
+  | ["phase"] => some (showPhaseView (viewPhase s))
+  | ["price"] => (viewPrice s).map toString
+  | ["supply", t] => do pure (toString (viewSupply s (← parseTok t)))
+  | _ => none
+
+def handle (s : St) (line : String) : St × Option String :=
+  match words line with
+  | "W" :: rest => (initOf rest, some (" ".intercalate ("W" :: rest)))
+  | "O" :: n :: rest =>
+      match (parseOp rest).bind (step s) with
+      | some (s', o) => (s', some s!"R {n} ok {o.v1} {o.v2} {o.v3} | {showState s'}")
+      | none => (s, some s!"R {n} err")
+  | "Q" :: n :: rest =>
+      match view s rest with
+      | some v => (s, some s!"V {n} ok {v}")
+      | none => (s, some s!"V {n} err")
+  | _ => (s, none)
+
+end Mx.PdDriver
+
+def main : IO Unit :=
+  Mx.Proto.mainLoop (Mx.PD.init ⟨1, 0, 0, 0, 0, 0, 0, 0, 1, 1⟩ 0 0 0) Mx.PdDriver.handle
